@@ -100,12 +100,13 @@ RECURSIVE SumRecs(_, _)
 SumRecs(S, f) == IF S = {} THEN 0
                  ELSE LET r == CHOOSE x \in S : TRUE
                       IN (IF f = "series" THEN r.series ELSE r.total) + SumRecs(S \ {r}, f)
-NoLegitRelief(i) ==
+NoLegitRelief(i, o) ==
   \A k \in Sh(i) : InSync(i, k) =>
      \* (only targets that are still discovered: what a shard still carries of a target that has just left
      \* discovery is ordinary stale load, whatever the size of that target was)
-     LET bigP == {r \in RepRecs(i, k) : r.total > i.opts.maxProc /\ r.t \in ActiveSet(i)}
-         bigH == {r \in RepRecs(i, k) : r.series > i.opts.maxHead /\ r.t \in ActiveSet(i)}
+     \* ... and that the shard keeps: a copy that is collected in this very cycle (duplicate) is stale load as well
+     LET bigP == {r \in RepRecs(i, k) : r.total > i.opts.maxProc /\ r.t \in ActiveSet(i) /\ r.t \in After(i, o, k)}
+         bigH == {r \in RepRecs(i, k) : r.series > i.opts.maxHead /\ r.t \in ActiveSet(i) /\ r.t \in After(i, o, k)}
      IN /\ \/ i.shards[k].proc < i.opts.maxProc
            \/ bigP # {} /\ i.shards[k].proc - SumRecs(bigP, "total") < i.opts.maxProc
         /\ \/ i.opts.maxHead = 0
@@ -115,7 +116,7 @@ AnyOversizedReported(i) ==
   \E k \in Sh(i) : \E r \in RepRecs(i, k) : r.t \in ActiveSet(i) /\ (r.total > i.opts.maxProc \/ (i.opts.maxHead # 0 /\ r.series > i.opts.maxHead))
 C04_OversizedScaleUp(i, o) ==
   /\ \A k \in Sh(i) : InSync(i, k)
-  /\ NoLegitRelief(i)
+  /\ NoLegitRelief(i, o)
   /\ \A t \in UnscrapedHealthy(i) : Oversized(i, t)
   /\ (UnscrapedHealthy(i) # {} \/ AnyOversizedReported(i))
   /\ Len(o.scales) > 0
